@@ -14,6 +14,8 @@ Definition pairs_eqb := leqb pairZeq.
 (* C04 correspondence: records of both passes + residual loads after the second pass *)
 Definition load_obs_eqb (m : option (list (Z * Z * bool * nat) * list Z)) (recs : list (Z * Z * bool * nat)) (res : list Z) : bool :=
   match m with Some (r, q) => leqb lrec_eqb r recs && zlist_eqb q res | None => false end.
+Definition load_recs_eqb (m : option (list (Z * Z * bool * nat) * list Z)) (recs : list (Z * Z * bool * nat)) : bool :=
+  match m with Some (r, _) => leqb lrec_eqb r recs | None => false end.
 Definition opt_pairs_eqb (m : option (list (Z * Z))) (l : list (Z * Z)) : bool :=
   match m with Some r => pairs_eqb r l | None => false end.
 
